@@ -76,6 +76,18 @@ def gen_spec(rng, n_ann):
             continue
         used.add((t, b, e))
         nodes["a%d" % i] = {"type": t, "view": vn, "b": b, "e": e, "prims": {}, "refs": {}, "arrs": {}, "indexed": rng.random() < 0.7}
+    # twins: structures of *different* types with the same short name at identical offsets, view and index status
+    # (their anchors collide and are told apart by the disambiguation counter only)
+    SAME_SHORT = ["x.Ann", "x.sub.Ann", "y.Ann"]
+    for k in list(nodes):
+        n = nodes[k]
+        if n["type"] in SAME_SHORT and rng.random() < 0.35:
+            t2 = rng.choice([t for t in SAME_SHORT if t != n["type"]])
+            if (t2, n["b"], n["e"]) not in used:
+                used.add((t2, n["b"], n["e"]))
+                nodes[k + "t"] = {"type": t2, "view": n["view"], "b": n["b"], "e": n["e"], "prims": {}, "refs": {}, "arrs": {},
+                                  "indexed": n["indexed"], "twin": k}
+                n["twin"] = k + "t"
     anns = sorted(nodes)
     if not anns:
         return gen_spec(rng, n_ann + 1)
@@ -96,7 +108,8 @@ def gen_spec(rng, n_ann):
             elif rg == "uima.cas.Boolean":
                 n["prims"][fname] = rng.random() < 0.5
             elif rg in ("uima.cas.TOP", "uima.tcas.Annotation"):
-                n["refs"][fname] = rng.choice(anns)
+                tw = [a for a in anns if "twin" in nodes[a]]
+                n["refs"][fname] = rng.choice(tw) if tw and rng.random() < 0.5 else rng.choice(anns)
             elif rg == "x.Rec":
                 pass
             elif rg == "uima.cas.FSArray" and not multi:
@@ -190,6 +203,7 @@ def build_ops(spec, rng, explicit_ids, shuffle):
     if shuffle:
         rng.shuffle(adds)
     sb.ops.extend(adds)
+    sb.meta = {"label": label, "vh": vh, "ts": ts}
     return sb, h0
 
 
@@ -229,7 +243,11 @@ def mutate(spec, rng, kind):
             f = rng.choice(sorted(n["refs"]))
             if f == "next":
                 continue
-            others = [a for a in anns if a != n["refs"][f]]
+            cur = n["refs"][f]
+            if "twin" in nodes[cur]:
+                n["refs"][f] = nodes[cur]["twin"]
+                return sp
+            others = [a for a in anns if a != cur]
             if others:
                 n["refs"][f] = rng.choice(others)
                 return sp
@@ -237,7 +255,12 @@ def mutate(spec, rng, kind):
             f = rng.choice(sorted(n["arrs"]))
             ak, els = n["arrs"][f]
             if ak in ("rs", "shared"):
-                els = list(els) + [anns[0]]
+                tw = [i for i, x in enumerate(els) if x is not None and "twin" in nodes[x]]
+                if tw:
+                    els = list(els)
+                    els[tw[0]] = nodes[els[tw[0]]]["twin"]
+                else:
+                    els = list(els) + [anns[0]]
             elif ak == "is":
                 els = list(els) + [9]
             elif ak == "ss":
@@ -333,12 +356,47 @@ def run(ctx, out, budget):
             m = mutate(spec, rng, mk)
             if m is not None:
                 variants.append(("mut:" + mk, m, rng.random() < 0.5, rng.random() < 0.5))
-        for (tag, sp, ids, shuf) in variants:
+        # an annotation removed from its view and added to another one must read like one created there
+        mv = next((v for v in variants if v[0] == "mut:view"), None)
+        if mv is not None:
+            moved = [kk for kk in spec["nodes"] if spec["nodes"][kk]["view"] != mv[1]["nodes"][kk]["view"]]
+            if len(moved) == 1 and spec["nodes"][moved[0]]["indexed"]:
+                variants.append(("moved", spec, False, False, moved[0], mv[1]["nodes"][moved[0]]["view"]))
+        cand = [kk for kk, nd in spec["nodes"].items() if nd["type"] in ("x.Ann", "x.sub.Ann")]
+        if cand:
+            variants.append(("late", spec, False, False))
+        for var in variants:
+            (tag, sp, ids, shuf) = var[:4]
             sb, h0 = build_ops(sp, rng, ids, shuf)
             ops = sb.ops
+            if tag == "moved":
+                kk, dest = var[4], var[5]
+                ops.append({"op": "cas.remove", "h": sb.meta["vh"][sp["nodes"][kk]["view"]], "fs": sb.meta["label"][kk]})
+                ops.append({"op": "cas.add", "h": sb.meta["vh"][dest], "fs": sb.meta["label"][kk]})
+            late_ops = None
+            if tag == "late":
+                # render once, add a feature to a type, create one more structure that carries it.  The type is named after
+                # the scenario: `Type.__eq__` is structural across type systems, so equally named types of other sessions run
+                # by the same worker process could otherwise answer for it in any per-type cache
+                tname = "x.Late%d" % k
+                ops.append({"op": "ts.create_type", "ts": sb.meta["ts"], "name": tname, "super": "x.Ann"})
+                used_be = {(nd.get("b"), nd.get("e")) for nd in sp["nodes"].values()}
+                L = len(sp["views"][0][1])
+                free = [(b, b) for b in range(L, -1, -1) if (b, b) not in used_be]
+                be0, be1 = (free + [(0, 0), (0, 0)])[:2]
+                lab0 = sb.fs_new(sb.meta["ts"], tname, {"begin": be0[0], "end": be0[1], "v": 3})
+                ops.append({"op": "cas.add", "h": h0, "fs": lab0})
+                ops.append({"op": "cas.comparable", "h": h0})
+                ops.append({"op": "ts.create_feature", "ts": sb.meta["ts"], "domain": tname, "name": "late", "range": "uima.cas.Integer"})
+                lab = sb.fs_new(sb.meta["ts"], tname, {"begin": be1[0], "end": be1[1], "late": 1})
+                ops.append({"op": "cas.add", "h": h0, "fs": lab})
+                late_ops = lab
             i0 = len(ops)
             ops.append({"op": "cas.comparable", "h": h0})
             extra = []
+            if tag == "late":
+                ops.append({"op": "fs.set", "fs": late_ops, "path": "late", "v": 2})
+                ops.append({"op": "cas.comparable", "h": h0})
             if tag == "base":
                 nh = sb.n_h
                 has_null = any(kind in ("rs", "shared") and None in els for nd in spec["nodes"].values() for kind, els in nd["arrs"].values())
@@ -387,6 +445,19 @@ def run(ctx, out, budget):
                     out.oracle_failures.append({"scenario": sc, "op_index": j, "what": "text differs after a %s save/load round trip" % what,
                                                 "expected": text, "actual": r["ok"]["text"]})
                 out.nontriv((k, "rt", what))
+        elif tag == "moved":
+            ref_text = next((impl[sj][metas[sj][2]] for sj in range(len(metas)) if metas[sj][0] == k and metas[sj][1] == "mut:view"), None)
+            if ref_text is not None and "ok" in ref_text and ref_text["ok"]["text"] != text:
+                out.oracle_failures.append({"scenario": sc, "op_index": i0, "what": "an annotation moved to another view (remove + add) reads differently from one created in that view",
+                                            "expected": ref_text["ok"]["text"], "actual": text})
+            out.nontriv((k, tag))
+        elif tag == "late":
+            t2 = io_[i0 + 2]
+            if '"late"' not in (text or ""):
+                out.oracle_failures.append({"scenario": sc, "op_index": i0, "what": "a feature added to the type after an earlier rendering is missing from the table", "actual": text})
+            elif "ok" in t2 and t2["ok"]["text"] == text:
+                out.oracle_failures.append({"scenario": sc, "op_index": i0 + 2, "what": "a prim mutation of a feature added after an earlier rendering does not change the text", "actual": text})
+            out.nontriv((k, tag))
         elif tag.startswith("mut:"):
             if k in base_text and text == base_text[k][0]:
                 out.oracle_failures.append({"scenario": sc, "op_index": i0, "what": "a %s mutation does not change the text" % tag[4:],
@@ -413,6 +484,11 @@ def replay(ctx, payload):
     if not sorted_ok(text):
         return True
     tag = sc.get("variant", "")
+    if tag == "late":
+        t1, t2 = io_[comps[-2]]["ok"]["text"], io_[comps[-1]]["ok"]["text"]
+        return '"late"' not in (t1 or "") or t1 == t2
+    if tag == "moved":
+        return fl.get("expected") is not None and io_[comps[-1]]["ok"]["text"] != fl["expected"]
     if tag == "base":
         return any(io_[i]["ok"]["text"] != text for i in comps[1:] if ops[i - 1]["op"] == "cas.reload")
     if fl.get("base_ops"):
